@@ -1,34 +1,31 @@
 (* C13 — Subscriptions follow the graphql-transport-ws protocol for every frame sequence.
    Property theorems only; proofs live in Proofs/WsP.v.  run_ws is the model of execute_ws
-   (Model/Ws.v), spec_ws the protocol machine the property text describes.  All theorems quantify
-   over ALL configurations, requests and frame lists (any length, any JSON). *)
+   (Model/Ws.v, as of /repo 20e6b35), spec_ws the protocol machine the property text describes.  All
+   theorems quantify over ALL configurations, requests and frame lists (any length, any JSON).
+   No finding class is open any more: every statement is at full strength, without guards.  The former
+   `..._refuted` witnesses are kept below as regression Examples (and replayed on the real code by the
+   check: harness/vh/props/c13_deep.py). *)
 From Coq Require Import List String Bool ZArith.
 From AC Require Import Base.Json Model.Ws Proofs.WsP.
 Import ListNotations.
 Local Open Scope string_scope.
 
-(* ---- the full statement: the client is the protocol machine ---- *)
-Definition C13_conforms_full : Prop :=
-  forall c rq fs, same_obs (run_ws c rq fs) (spec_ws c rq fs).
-
-(* proved under the two open finding classes as explicit boolean guards (g_all = g_shape && g_nonnull);
-   the guards g_stop (F26) and g_vars were deleted when /repo b1e7ba9 and d334181 landed *)
-Theorem C13_conforms_partial : forall c rq fs, g_all fs = true ->
-  same_obs (run_ws c rq fs) (spec_ws c rq fs).
+(* ---- the client is the protocol machine: connect parameters, the whole interleaved event list
+        (receive / send / yield / close) and the outcome (message text of the invalid-message error
+        aside) ---- *)
+Theorem C13_conforms : forall c rq fs, same_obs (run_ws c rq fs) (spec_ws c rq fs).
 Proof. exact conform. Qed.
-Print Assumptions C13_conforms_partial.
+Print Assumptions C13_conforms.
 
-(* ---- init first, and nothing else before a frame has been received (unguarded) ---- *)
+(* ---- init first, and nothing else before a frame has been received ---- *)
 Theorem C13_init_first : forall c rq fs, exists evs,
   t_events (run_ws c rq fs) = ESend (init_msg c) :: evs /\
   (fs = [] /\ evs = [] \/ exists evs', evs = ERecv :: evs').
 Proof. exact events_head. Qed.
 Print Assumptions C13_init_first.
 
-(* ---- everything the client ever sends, in closed form (unguarded): init; then, only if the
-        first frame is the ack, one subscribe; then one pong per ping that precedes the first
-        complete/error/malformed frame; nothing else.  silent_until_ack, one_subscribe (count)
-        and one_pong_per_ping are its corollaries ---- *)
+(* ---- everything the client ever sends, in closed form: init; then, only if the first frame is the
+        ack, one subscribe; then one pong per ping that precedes the first terminal frame ---- *)
 Theorem C13_sent_closed_form : forall c rq fs,
   sent_of (t_events (run_ws c rq fs)) =
     init_msg c ::
@@ -50,118 +47,95 @@ Theorem C13_silent_until_ack : forall c rq fs, (forall f r, fs = f :: r -> is_ac
 Proof. exact silent_until_ack. Qed.
 Print Assumptions C13_silent_until_ack.
 
-(* ---- first frame not the ack => invalid-message error, one frame consumed ---- *)
-Definition C13_first_not_ack_invalid_full : Prop := forall c rq f r, is_ack f = false ->
-  exists msg, t_fin (run_ws c rq (f :: r)) = RaisedInvalid msg.
-Theorem C13_first_not_ack_invalid_partial : forall c rq f r, type_crashes f = false -> is_ack f = false ->
+(* ---- first frame not the ack => invalid-message error, exactly one frame consumed ---- *)
+Theorem C13_first_not_ack_invalid : forall c rq f r, is_ack f = false ->
   exists msg, t_fin (run_ws c rq (f :: r)) = RaisedInvalid msg /\
               t_events (run_ws c rq (f :: r)) = [ESend (init_msg c); ERecv].
 Proof. exact first_not_ack. Qed.
-Print Assumptions C13_first_not_ack_invalid_partial.
+Print Assumptions C13_first_not_ack_invalid.
 
-(* ---- exactly one subscribe, carrying query, operationName and the serialised variables
-        (json.dumps(default=to_jsonable_python), the serialisation of the HTTP path) — full strength
-        since /repo d334181 ---- *)
+(* ---- exactly one subscribe (query, operationName, to_jsonable serialisation of the variables) ---- *)
 Theorem C13_one_subscribe : forall c rq f r m, is_ack f = true -> subscribe_msg rq = Some m ->
   sent_of (t_events (run_ws c rq (f :: r))) = init_msg c :: m :: repeat pong_msg (count_pings (spec_prefix r)).
 Proof. exact one_subscribe. Qed.
 Print Assumptions C13_one_subscribe.
 
-(* ---- the yielded list is the data of the next frames, in order: proved up to the null-data
-        class (what is left of F14 after /repo 8b27040), the only guard left ---- *)
-Definition C13_yields_next_in_order_full : Prop := forall c rq f r m, is_ack f = true ->
-  subscribe_msg rq = Some m ->
+(* ---- the yielded list is the data of the next frames, in order, up to the first terminal frame
+        (complete / error / next whose data is null / malformed); that data is never null ---- *)
+Theorem C13_yields_next_in_order : forall c rq f r m, is_ack f = true -> subscribe_msg rq = Some m ->
   yielded_of (t_events (run_ws c rq (f :: r))) = next_data (spec_prefix r).
-Theorem C13_yields_next_in_order_partial : forall c rq f r m, is_ack f = true ->
-  subscribe_msg rq = Some m -> g_nonnull r = true ->
-  yielded_of (t_events (run_ws c rq (f :: r))) = next_data (spec_prefix r).
-Proof. exact yields_partial. Qed.
-Print Assumptions C13_yields_next_in_order_partial.
+Proof. exact yields. Qed.
+Print Assumptions C13_yields_next_in_order.
 
-(* ---- finishes on complete, whatever follows: outcome Finished, close() once, the complete frame
-        is the last frame consumed, yields = the non-null data of the next frames before it — full
-        strength since /repo b1e7ba9 ---- *)
+Theorem C13_next_data_never_null : forall f d, skind_of f = SNext d -> nonnull d = true.
+Proof. exact snext_nonnull. Qed.
+Print Assumptions C13_next_data_never_null.
+
+(* ---- finishes on complete, whatever follows ---- *)
 Theorem C13_complete_finishes : forall c rq f a x b m, is_ack f = true ->
   subscribe_msg rq = Some m -> nonterminal a = true -> skind_of x = SComplete ->
   t_fin (run_ws c rq (f :: a ++ x :: b)) = Finished /\
   closes_of (t_events (run_ws c rq (f :: a ++ x :: b))) = 1 /\
   consumed_of (t_events (run_ws c rq (f :: a ++ x :: b))) = S (S (List.length a)) /\
-  yielded_of (t_events (run_ws c rq (f :: a ++ x :: b))) = filter nonnull (next_data a).
+  yielded_of (t_events (run_ws c rq (f :: a ++ x :: b))) = next_data a.
 Proof. exact complete_finishes. Qed.
 Print Assumptions C13_complete_finishes.
 
-(* ---- error => the multi-error with the frame's errors; malformed => invalid-message ---- *)
-Definition C13_malformed_raises_invalid_full : Prop := forall c rq f a x b m, is_ack f = true ->
-  subscribe_msg rq = Some m -> nonterminal a = true -> skind_of x = SMalformed ->
-  exists msg, t_fin (run_ws c rq (f :: a ++ x :: b)) = RaisedInvalid msg.
-(* error with a list of error objects (or no payload): full strength, the hypothesis skind_of x = SError l
-   already excludes the crash class *)
+(* ---- error => the multi-error with the frame's errors (data = the message) ---- *)
 Theorem C13_error_raises_multi : forall c rq f a x b m l, is_ack f = true ->
   subscribe_msg rq = Some m -> nonterminal a = true -> skind_of x = SError l ->
   t_fin (run_ws c rq (f :: a ++ x :: b)) = RaisedMulti l (frame_json x) /\
-  yielded_of (t_events (run_ws c rq (f :: a ++ x :: b))) = filter nonnull (next_data a).
+  yielded_of (t_events (run_ws c rq (f :: a ++ x :: b))) = next_data a.
 Proof. exact error_multi. Qed.
 Print Assumptions C13_error_raises_multi.
-Theorem C13_malformed_raises_invalid_partial : forall c rq f a x b m, is_ack f = true ->
-  subscribe_msg rq = Some m -> nonterminal a = true -> skind_of x = SMalformed -> shape_ok x = true ->
-  t_fin (run_ws c rq (f :: a ++ x :: b)) = RaisedInvalid (Some x) /\
-  yielded_of (t_events (run_ws c rq (f :: a ++ x :: b))) = filter nonnull (next_data a).
-Proof. exact malformed_invalid. Qed.
-Print Assumptions C13_malformed_raises_invalid_partial.
 
-(* ---- the shape class is EXACT.  A run ends with an exception that is neither the multi-error nor
-        the invalid-message error (nor ConnectionClosed) only if (1) the variables cannot be serialised
-        at all, or (2) the first frame is in the syntactic class type_crashes, or (3) after the ack a
-        frame of the syntactic class crash_stream = type_crashes || payload_crashes is consumed; and
-        conversely every such frame, once consumed, does end the run that way ---- *)
+(* ---- next whose data is null => the multi-error built from the result's errors (data = None);
+        no frame vanishes silently (former finding F14) ---- *)
+Theorem C13_next_null_data_raises_errors : forall c rq f a x b m l, is_ack f = true ->
+  subscribe_msg rq = Some m -> nonterminal a = true -> skind_of x = SNextErrors l ->
+  t_fin (run_ws c rq (f :: a ++ x :: b)) = RaisedMulti l JNull /\
+  yielded_of (t_events (run_ws c rq (f :: a ++ x :: b))) = next_data a.
+Proof. exact next_errors_multi. Qed.
+Print Assumptions C13_next_null_data_raises_errors.
+
+(* ---- malformed (non-JSON, not an object, missing / non-string / unknown type, next without data or with
+        null data and no errors, error payload that is not a list of error objects) => invalid-message
+        error carrying the frame (former finding C13-shape-crash) ---- *)
+Theorem C13_malformed_raises_invalid : forall c rq f a x b m, is_ack f = true ->
+  subscribe_msg rq = Some m -> nonterminal a = true -> skind_of x = SMalformed ->
+  t_fin (run_ws c rq (f :: a ++ x :: b)) = RaisedInvalid (Some x) /\
+  yielded_of (t_events (run_ws c rq (f :: a ++ x :: b))) = next_data a.
+Proof. exact malformed_invalid. Qed.
+Print Assumptions C13_malformed_raises_invalid.
+
+(* ---- no frame sequence whatsoever ends the run with an exception outside the protocol: the only
+        other exception is the serialisation failure of the caller's own variables ---- *)
 Theorem C13_only_protocol_outcomes : forall c rq fs e, t_fin (run_ws c rq fs) = RaisedOther e ->
-  (e = SER_ERROR /\ subscribe_msg rq = None /\ exists f r, fs = f :: r /\ is_ack f = true)
-  \/ (exists f r, fs = f :: r /\ type_crashes f = true)
-  \/ (exists f a x b, fs = f :: a ++ x :: b /\ is_ack f = true /\ nonterminal a = true /\ crash_stream x = true).
+  e = SER_ERROR /\ subscribe_msg rq = None /\ exists f r, fs = f :: r /\ is_ack f = true.
 Proof. exact only_protocol_outcomes. Qed.
 Print Assumptions C13_only_protocol_outcomes.
 
-Theorem C13_crash_class_exact_stream : forall c rq f a x b m, is_ack f = true -> subscribe_msg rq = Some m ->
-  nonterminal a = true -> crash_stream x = true ->
-  exists e, t_fin (run_ws c rq (f :: a ++ x :: b)) = RaisedOther e.
-Proof. exact crash_consumed_raises. Qed.
-Print Assumptions C13_crash_class_exact_stream.
-
-Theorem C13_crash_class_exact_first : forall c rq f r, type_crashes f = true ->
-  exists e, t_fin (run_ws c rq (f :: r)) = RaisedOther e.
-Proof. exact first_crash_raises. Qed.
-Print Assumptions C13_crash_class_exact_first.
-
-(* the remaining two frames of shape_ok = false: error with payload {} or "" gives an empty multi-error *)
-Theorem C13_odd_error_empty_multi : forall rq f, odd_empty_error f = true ->
-  step rq Streaming f = (Done (RaisedMulti [] (frame_json f)), [ERecv]).
-Proof. exact odd_error_multi. Qed.
-Print Assumptions C13_odd_error_empty_multi.
-
-(* ---- the type table handed to the harness (and compared there with the enum in /repo) is what the
-        model decides with ---- *)
+(* ---- the type table handed to the harness (compared there with the enum in /repo) is what the model
+        decides with ---- *)
 Theorem C13_type_table_exact : forall s t, mtype_of_string s = Some t <-> exists n, In (n, s, t) type_table.
 Proof. exact mtype_table_exact. Qed.
 Print Assumptions C13_type_table_exact.
 
-(* ---- the OpenTelemetry client, with or without tracer, produces the same trace ---- *)
+(* ---- the OpenTelemetry client, with or without tracer, produces the same trace (by construction of
+        the separately written step_otel + the exhaustive tie over the three variants) ---- *)
 Theorem C13_otel_same_trace : forall c rq fs tracer,
   strip_spans (run_ws_otel tracer c rq fs) = run_ws c rq fs.
 Proof. exact otel_same. Qed.
 Print Assumptions C13_otel_same_trace.
 
-(* ---- histories: a subscription does not depend on earlier subscriptions on the same client object,
-        and leaves the object as it found it.  BY CONSTRUCTION of the model (call returns the client it
-        was given, as execute_ws works on copies); its force is the history tie of the harness, which
-        compares every call of 2-4-call histories on one real client object with run_ws of that call
-        alone and snapshots vars(client) / module state ---- *)
+(* ---- histories (by construction + the history / overlap ties of the harness) ---- *)
 Theorem C13_history_independent : forall cl calls,
   snd (run_history cl calls) = cl /\
   fst (run_history cl calls) = map (fun c => run_ws (cfg_of cl (fst (fst c))) (snd (fst c)) (snd c)) calls.
 Proof. exact history_independent. Qed.
 Print Assumptions C13_history_independent.
 
-(* ================= refutations of the full statements on the faithful model ================= *)
+(* ================= regression Examples: the witnesses of the five repaired findings ================= *)
 Definition C0 := {| c_url := "ws://x"; c_headers := []; c_origin := None; c_init_payload := None;
                     c_kw_headers := None; c_kw_other := [] |}.
 Definition RQ0 := {| r_query := "subscription { x }"; r_opname := None; r_vars := None |}.
@@ -170,26 +144,25 @@ Definition ACK := fr "connection_ack" [].
 Definition NEXT (d : json) := fr "next" [("payload", JObj [("data", d)])].
 Definition COMPLETE := fr "complete" [].
 Definition D1 := JObj [("x", JInt 1)].
+Definition BOOM := [JObj [("message", JStr "boom")]].
 
-(* F14, narrowed by /repo 8b27040: a next frame whose data is null is (still) not yielded *)
-Theorem C13_yields_refuted_null_data : exists c rq f r m, is_ack f = true /\ subscribe_msg rq = Some m /\
-  yielded_of (t_events (run_ws c rq (f :: r))) <> next_data (spec_prefix r).
-Proof. exists C0, RQ0, ACK, [NEXT JNull]. eexists. vm_compute. repeat split; discriminate. Qed.
-
-Theorem C13_yields_next_in_order_refuted : ~ C13_yields_next_in_order_full.
-Proof.
-  intro H. specialize (H C0 RQ0 ACK [NEXT JNull] _ eq_refl eq_refl). vm_compute in H. discriminate.
-Qed.
-Print Assumptions C13_yields_next_in_order_refuted.
-
-(* falsy but non-null data is yielded since 8b27040 (was the F14 witness [ack, next {}]) *)
+(* F14 ({} data, 8b27040): falsy non-null data is yielded *)
 Example C13_regression_empty_object_data :
   yielded_of (t_events (run_ws C0 RQ0 [ACK; NEXT (JObj []); NEXT (JInt 0); NEXT (JStr ""); NEXT D1])) =
-    [JObj []; JInt 0; JStr ""; D1] /\
-  g_nonnull [NEXT (JObj []); NEXT (JInt 0); NEXT (JStr ""); NEXT D1] = true.
-Proof. vm_compute. split; reflexivity. Qed.
+    [JObj []; JInt 0; JStr ""; D1].
+Proof. vm_compute. reflexivity. Qed.
 
-(* regression witnesses of the two repaired findings (they were ..._refuted theorems before) *)
+(* F14 (null data, 20e6b35): errors are raised, a null without errors is malformed; later frames untouched *)
+Example C13_regression_null_data :
+  let nx := fr "next" [("payload", JObj [("data", JNull); ("errors", JArr BOOM)])] in
+  t_fin (run_ws C0 RQ0 [ACK; NEXT D1; nx; NEXT D1]) = RaisedMulti BOOM JNull /\
+  yielded_of (t_events (run_ws C0 RQ0 [ACK; NEXT D1; nx; NEXT D1])) = [D1] /\
+  t_fin (run_ws C0 RQ0 [ACK; NEXT JNull]) = RaisedInvalid (Some (NEXT JNull)) /\
+  t_fin (run_ws C0 RQ0 [ACK; fr "next" [("payload", JObj [("data", JNull); ("errors", JArr [])])]]) =
+    RaisedInvalid (Some (fr "next" [("payload", JObj [("data", JNull); ("errors", JArr [])])])).
+Proof. vm_compute. repeat split. Qed.
+
+(* F26 (b1e7ba9): nothing after complete is processed *)
 Example C13_regression_after_complete :
   let t := run_ws C0 RQ0 [ACK; COMPLETE; NEXT D1; fr "ping" [];
                           fr "error" [("payload", JArr [JObj [("message", JStr "late")]])]] in
@@ -197,23 +170,20 @@ Example C13_regression_after_complete :
   List.length (sent_of (t_events t)) = 2.
 Proof. vm_compute. repeat split. Qed.
 
-(* shape class: JSON that is not an object, an unhashable type, a payload of the wrong kind *)
-Theorem C13_first_not_ack_invalid_refuted : ~ C13_first_not_ack_invalid_full.
-Proof.
-  intro H. destruct (H C0 RQ0 (FJson (JArr [JInt 1; JInt 2])) [] eq_refl) as [m F].
-  vm_compute in F. discriminate.
-Qed.
-Print Assumptions C13_first_not_ack_invalid_refuted.
+(* C13-shape-crash (2ce90a9): the former crash frames raise the invalid-message error *)
+Example C13_regression_shape :
+  t_fin (run_ws C0 RQ0 [FJson (JArr [JInt 1; JInt 2])]) = RaisedInvalid (Some (FJson (JArr [JInt 1; JInt 2]))) /\
+  (let e := fr "error" [("payload", JObj [("message", JStr "single object")])] in
+   t_fin (run_ws C0 RQ0 [ACK; e]) = RaisedInvalid (Some e)) /\
+  (let e := fr "error" [("payload", JObj [])] in t_fin (run_ws C0 RQ0 [ACK; e]) = RaisedInvalid (Some e)) /\
+  (let n := fr "next" [("payload", JStr "xdatax")] in
+   t_fin (run_ws C0 RQ0 [ACK; NEXT D1; n]) = RaisedInvalid (Some n)) /\
+  (let u := FJson (JObj [("type", JArr [JStr "next"])]) in
+   t_fin (run_ws C0 RQ0 [ACK; u]) = RaisedInvalid (Some u)) /\
+  t_fin (run_ws C0 RQ0 [ACK; fr "error" []]) = RaisedMulti [] (frame_json (fr "error" [])).
+Proof. vm_compute. repeat split. Qed.
 
-Theorem C13_malformed_raises_invalid_refuted : ~ C13_malformed_raises_invalid_full.
-Proof.
-  intro H.
-  destruct (H C0 RQ0 ACK [] (fr "error" [("payload", JObj [("message", JStr "single object")])]) []
-              _ eq_refl eq_refl eq_refl eq_refl) as [m F].
-  vm_compute in F. discriminate.
-Qed.
-Print Assumptions C13_malformed_raises_invalid_refuted.
-
+(* C13-vars-not-json (d334181): datetime-like variables are serialised *)
 Definition RQ_DT := {| r_query := "subscription($t: DateTime) { x(since: $t) }"; r_opname := Some "S";
                        r_vars := Some [("t", VOpaque (JStr "2024-01-02T03:04:05"));
                                        ("w", VModel false (JObj [("at", JStr "2024-01-02T03:04:05")]))] |}.
@@ -228,13 +198,7 @@ Example C13_regression_datetime_variable :
                                                  ("w", JObj [("at", JStr "2024-01-02T03:04:05")])])])]].
 Proof. vm_compute. split; reflexivity. Qed.
 
-Theorem C13_conforms_refuted : ~ C13_conforms_full.
-Proof.
-  intro H. destruct (H C0 RQ0 [ACK; NEXT JNull]) as (_ & E & _). vm_compute in E. discriminate.
-Qed.
-Print Assumptions C13_conforms_refuted.
-
-(* ================= non-vacuity: the guards are met by non-trivial inputs ================= *)
+(* ================= non-vacuity: the hypotheses are met by non-trivial inputs ================= *)
 Definition RQ_RICH := {| r_query := "subscription S($a: Int) { count(a: $a) }"; r_opname := Some "S";
   r_vars := Some [("a", VJ (JInt 1)); ("skip", VUnset);
                   ("inp", VModel true (JObj [("fieldA", JInt 1)]));
@@ -244,8 +208,7 @@ Definition C_RICH := {| c_url := "ws://h/g"; c_headers := [("X-A", JStr "1"); ("
   c_kw_headers := Some [("X-B", JStr "over")]; c_kw_other := [("open_timeout", JInt 5)] |}.
 Definition FS_RICH := [ACK; NEXT D1; fr "ping" []; fr "pong" []; NEXT (JObj [("x", JInt 2)]); COMPLETE].
 
-Example C13_guards_satisfiable :
-  g_all FS_RICH = true /\
+Example C13_rich_example :
   yielded_of (t_events (run_ws C_RICH RQ_RICH FS_RICH)) = [D1; JObj [("x", JInt 2)]] /\
   t_fin (run_ws C_RICH RQ_RICH FS_RICH) = Finished /\
   List.length (sent_of (t_events (run_ws C_RICH RQ_RICH FS_RICH))) = 3 /\
@@ -259,9 +222,7 @@ Example C13_guards_satisfiable :
 Proof. vm_compute. repeat split. Qed.
 
 Example C13_error_hypotheses_satisfiable :
-  let e := fr "error" [("payload", JArr [JObj [("message", JStr "boom")]])] in
-  nonterminal [NEXT D1; fr "ping" []] = true /\ skind_of e = SError [JObj [("message", JStr "boom")]] /\
-  shape_ok e = true /\ is_ack ACK = true /\
-  t_fin (run_ws C0 RQ0 (ACK :: [NEXT D1; fr "ping" []] ++ e :: [NEXT D1])) =
-    RaisedMulti [JObj [("message", JStr "boom")]] (frame_json e).
+  let e := fr "error" [("payload", JArr BOOM)] in
+  nonterminal [NEXT D1; fr "ping" []] = true /\ skind_of e = SError BOOM /\ is_ack ACK = true /\
+  t_fin (run_ws C0 RQ0 (ACK :: [NEXT D1; fr "ping" []] ++ e :: [NEXT D1])) = RaisedMulti BOOM (frame_json e).
 Proof. vm_compute. repeat split. Qed.
